@@ -1525,7 +1525,13 @@ def _encode_host(host: str, validate_host: bool) -> str:
             return f"{host}%{zone}" if sep else host
 
     # IDNA encoding is slow, skip it for ASCII-only strings
-    host = host.lower() if host.isascii() else _idna_encode(host)
+    if host.isascii():
+        host = host.lower()
+    else:
+        if validate_host:
+            # same NFKC delimiter screen the parser applies to a netloc
+            _check_netloc(host)
+        host = _idna_encode(host)
     # Check for invalid characters explicitly; the IDNA 2003 fallback of
     # _idna_encode() lets any ASCII through (e.g. the NFKC form of U+2100).
     if validate_host and (invalid := NOT_REG_NAME.search(host)):
